@@ -56,6 +56,16 @@ CHECKS = {
              "no-effect on unlisted countries on valid and mutated texts; BBAN-level check returns True / raises.",
         note="Trusted: O-nat in vlib/oracles/nat.py; Norway accounts starting 00 tolerated.",
         design="7/C06"),
+    "C07": dict(
+        technique="generated accounts (uniform, short, boundary, remainder-directed; thorough: complete range 0..999,999) against "
+                  "an independent three-valued re-implementation of the Bundesbank methods, plus exhaustive bank-code dispatch",
+        text="Every implemented method is compared with an independent reference on hundreds of thousands of generated "
+             "accounts whose remainders 0/1/10 and documented boundaries are hit by construction; dispatch is checked through "
+             "the public IBAN API for every German bank code of the bundled registry, unlisted codes and banks of "
+             "unimplemented methods; banks sharing a method must agree (metamorphic).",
+        note="Trusted: O-de written from the Bundesbank descriptions (reproduces all 70 literals of the repository's tests); "
+             "ambiguous regions (13/63/68/76 sub-accounts, 16/23 remainder 1 with digit 0) are undecided and tolerated.",
+        design="7/C07"),
 }
 
 NOT_YET = "check not built yet in this round (planned in DESIGN.md section 7)"
